@@ -36,6 +36,18 @@ CHECKS = {
  "C16": (MC, "result-record pins (flags, rc) in every address vector, four modes x tld_check; unpredicted records validated by TLC",
          "At most one flag, exactly the form flag on acceptance, none when syntactically invalid, rc 0 / class / negative.",
          "Trusted: TLC, spec/Email.tla, replay driver. EAV_EXTRA strings: see evidence."),
+ "C06": (MC, "spec-generated vectors executed under guard pages, ASan+UBSan, valgrind-memcheck and --wrap allocation accounting; TLC model of field definedness / heap balance / rc range; callgrind instruction counts at n,2n,4n",
+         "The specification decides what is executed (bounded-exhaustive vectors, structural positions, 0..64 KiB adversarial shapes, all object histories of length L) and the modelled part (no read of an undefined eav_t field, heap balance, abort unreachable, linear step count); undefined behaviour and out-of-bounds accesses of the compiled code are observed by the monitors on those executions.",
+         "Monitors, not TLC, observe UB/out-of-bounds (DESIGN.md section 9). Trusted: guard-page placement code, ASan/UBSan/valgrind, callgrind determinism. The IDN converter's own work is excluded from the linearity measurement."),
+ "C08": (MC, "complete TLC enumeration of (mask, result code, mode) and (mask, real address per class, mode, tld_check), replayed on eav_is_email (callback / real addresses); PolicyP = nine-arm switch checked in TLC",
+         "The policy space is finite and is enumerated completely (exhaustive: true).",
+         "Trusted: TLC, replay driver; the callback route uses the public callback fields of eav_t."),
+ "C13": (MC, "TLC full state graph of the eav_t machine (history independence as action property, dispatch, heap, definedness) + replay of every history of length L on the real object with fresh-object comparison and --wrap accounting",
+         "History independence is checked on the model for all histories of every length over the pool, and on the code for every history of L calls (each eav_is_email compared with a fresh object given the same settings - an oracle-free relation).",
+         "Trusted: TLC, spec/Eav.tla, replay driver, wrap.c. Pool of 16 addresses; converter answers recorded from libidn2."),
+ "C19": ("fault_enumeration", "converter as nondeterministic environment in TLC (31 libidn2 codes at every conversion of every history) + replay with the converter replaced at link time (--wrap), with and without output buffer",
+         "Single faults at every position of every history of L calls exhaustively in the model and on the code; containment, message = idn2_strerror(code), no flag, heap balance, following validation equal to a fresh object.",
+         "Trusted: TLC, wrap.c fault injector. Multi-fault sequences: every conversion in a history may fail independently."),
 }
 NOT_YET = {}
 
